@@ -899,6 +899,7 @@ func runC11(c *Ctx, r *Report) {
 	for v := range shared {
 		sn = append(sn, v.Name())
 	}
+	sort.Strings(sn)
 	r.Tables["worker_shared_locals"] = sn
 	r.Floor("R-C11.4", "uses of shared locals in the worker", nshared, 4)
 
